@@ -772,7 +772,7 @@ def _replay_job_inner(job):
         cfg, out = st["cfg"], st["out"]
         level = 1 if (tier == "thorough" and rng.random() < 0.25) else 0
         replay_config(cfg, out, col, rng, chunks_tab, pid, level)
-        if pid == "C06" and (tier == "thorough" or rng.random() < 0.5):
+        if pid == "C06" and (tier == "thorough" or rng.random() < 0.25):
             roundtrip_exactness(cfg, out, col, rng)
         res["configs"] += 1
         res["rejected"] += out["status"] == "Rejected"
